@@ -1501,19 +1501,42 @@ class Gen:
                 'name': name, 'fault': fault}
 
     def ns_inst(self, name):
-        props = [(n, 'string', False, v) for n, v in NS_KEYS]
-        props.append(('Name', 'string', False, name))
-        return {'cls': 'CIM_Namespace', 'props': props,
-                'keys': [n for n, v in NS_KEYS] + ['Name']}
+        return ns_inst_recipe(name)
+
+    def has_nsprov(self):
+        v = self.v
+        return bool(v.interop and 'CIM_Namespace' in v.classes[v.interop])
+
+    def other_spelling(self, name):
+        "same namespace name in another lexical case"
+        return self.pick([name.upper(), name.swapcase(), name.title()])
 
     def g_nsprov_create(self):
-        io = self.v.interop
+        """
+        CreateInstance of CIM_Namespace (creates a namespace when served by
+        the namespace provider).  'nsrel' records how the Name relates to the
+        repository before the call (View.ns_relation).
+        """
+        v = self.v
+        io = v.interop
         f = self.pick([None, None, 'nsprov-missing-key', 'nsprov-missing-key',
                        'nsprov-exists', 'nsprov-ccn-mismatch',
                        'nsprov-second-interop', 'nsprov-no-name',
                        'nsprov-unknown-prop', 'nsprov-not-interop'])
+        if v.orphans and self.chance(45):
+            f = self.pick(['nsprov-orphan-instance', 'nsprov-orphan-instance',
+                           'nsprov-orphan-instance', 'nsprov-orphan-name',
+                           'nsprov-orphan-name', 'nsprov-orphan-broken'])
+        elif v.unregistered and self.chance(12):
+            f = 'nsprov-unregistered'
         i = self.ns_inst('root/n%d' % self.fresh())
         ns = io
+        fault = f
+
+        def set_prop(i, pname, value):
+            i['props'] = [(n, t, a, value if n == pname else x)
+                          for n, t, a, x in i['props']]
+
         if f == 'nsprov-missing-key':
             k = self.pick([n for n, v in NS_KEYS
                            if n != 'CreationClassName'])
@@ -1534,15 +1557,126 @@ class Gen:
             pop = [n for n in self.v.nss if n != io and
                    'CIM_Namespace' in self.v.classes[n]]
             if not pop:
-                f = None
+                fault = None
             else:
                 ns = self.pick(pop)
-        return {'op': 'CreateInstance', 'ns': ns, 'inst': i, 'fault': f}
+        elif f == 'nsprov-orphan-instance':
+            # the very CIM_Namespace instance that is left over from a
+            # namespace that does not exist (any more): the namespace would
+            # be new, the instance is not
+            name, p = self.pick(v.orphans)
+            i = self.inst_from_path(io, p)
+            if self.chance(25):
+                # leading/trailing slashes are stripped by the provider
+                set_prop(i, 'Name', '/' + name.strip('/') + '/')
+        elif f == 'nsprov-orphan-name':
+            # Name of such a leftover instance, but a different instance:
+            # other lexical case of the Name or other values of the other
+            # keys (meant to succeed: namespace and instance are new)
+            name, p = self.pick(v.orphans)
+            i = self.inst_from_path(io, p)
+            if self.chance(50):
+                set_prop(i, 'Name', self.other_spelling(name))
+            else:
+                set_prop(i, self.pick(['SystemName', 'ObjectManagerName']),
+                         'Other%d' % self.fresh())
+            fault = None
+        elif f == 'nsprov-orphan-broken':
+            # Name of a leftover instance and another reason for rejection
+            name, p = self.pick(v.orphans)
+            i = self.inst_from_path(io, p)
+            set_prop(i, 'SystemName', 'Other%d' % self.fresh())
+            if self.chance(50):
+                i['props'].append(('Bogus', 'string', False, 'x'))
+            else:
+                i['props'] = [x for x in i['props']
+                              if x[0] != 'ObjectManagerName']
+        elif f == 'nsprov-unregistered':
+            # existing namespace that has no CIM_Namespace instance yet
+            # (meant to succeed: only the instance is new)
+            i = self.ns_inst(self.pick(v.unregistered))
+            fault = None
+        names = [x[3] for x in i['props'] if x[0] == 'Name']
+        return {'op': 'CreateInstance', 'ns': ns, 'inst': i, 'fault': fault,
+                'nsrel': v.ns_relation(names[0]) if names else 'no-name'}
+
+    def g_nsprov_delete(self):
+        """
+        DeleteInstance of a CIM_Namespace instance (removes the namespace
+        when served by the namespace provider)
+        """
+        v = self.v
+        cands = v.ns_insts
+        if v.orphans and self.chance(50):
+            cands = v.orphans
+        if not cands:
+            return self.g_DeleteInstance()
+        name, p = self.pick(cands)
+        pr = path_recipe(p)
+        if pr['ns'] is None:
+            pr['ns'] = v.interop
+        rel = v.ns_relation(name)
+        real = [n for n in v.nss if n.lower() == name.strip('/').lower()]
+        if rel == 'instance-without-namespace':
+            fault = 'nsprov-orphan'
+        elif real and real[0] == v.interop:
+            fault = 'nsprov-interop'
+        elif real and not v.is_empty_ns(real[0]):
+            fault = 'nsprov-nonempty'
+        else:
+            fault = None
+        return {'op': 'DeleteInstance', 'path': pr, 'fault': fault,
+                'nsrel': rel}
+
+    def g_add_ns_instance(self):
+        """
+        add_cimobjects() of one CIM_Namespace instance into the Interop
+        namespace (bypasses the namespace provider: no namespace is created)
+        """
+        v = self.v
+        io = v.interop
+        k = self.pick(['new', 'new', 'exists', 'unregistered', 'second'])
+        label = None
+        i = self.ns_inst('root/n%d' % self.fresh())
+        if k == 'exists' and v.ns_insts:
+            name, p = self.pick(v.ns_insts)
+            i = self.inst_from_path(io, p)
+            label = 'inst-exists'
+        elif k == 'unregistered' and v.unregistered:
+            i = self.ns_inst(self.pick(v.unregistered))
+        elif k == 'second' and v.ns_insts:
+            name, p = self.pick(v.ns_insts)
+            i = self.inst_from_path(io, p)
+            i['props'] = [(n, t, a, 'Other%d' % self.fresh()
+                           if n == 'SystemName' else x)
+                          for n, t, a, x in i['props']]
+        names = [x[3] for x in i['props'] if x[0] == 'Name']
+        return {'op': 'add_cimobjects', 'ns': io, 'items': [('inst', i, None)],
+                'k': 0 if label else None, 'aslist': False, 'fault': label,
+                'nsrel': v.ns_relation(names[0])}
+
+    def g_nsprov(self):
+        """
+        one call that touches the pairing 'namespace <-> CIM_Namespace
+        instance in the Interop namespace' kept by the namespace provider
+        """
+        if not self.has_nsprov():
+            return self.g_CreateInstance()
+        k = self.pick(['create'] * 5 + ['delete'] * 2 +
+                      ['remove', 'add_instance', 'add_namespace'])
+        if k == 'create':
+            return self.g_nsprov_create()
+        if k == 'delete':
+            return self.g_nsprov_delete()
+        if k == 'remove':
+            return self.g_remove_namespace(registered=True)
+        if k == 'add_instance':
+            return self.g_add_ns_instance()
+        return self.g_add_namespace(orphan=True)
 
     def g_CreateInstance(self):
         v = self.v
-        if v.interop and 'CIM_Namespace' in v.classes[v.interop] and \
-                self.chance(20):
+        if self.has_nsprov() and self.chance(20):
             return self.g_nsprov_create()
         withcls = [n for n in self.v.nss if self.class_names(n)]
         ns = self.pick(withcls) if withcls and self.chance(95) \
@@ -1773,13 +1907,19 @@ class Gen:
             pr['ns'] = self.ns_spelling(pr['ns'])
         return {'op': 'DeleteInstance', 'path': pr, 'fault': fault}
 
-    def g_add_namespace(self):
+    def g_add_namespace(self, orphan=False):
         f = self.pick([None, None, 'exists', 'exists-case',
                        'second-interop', 'exists-slashes'])
         if not self.v.nss:
             f = None
         name = 'root/e%d' % self.fresh()
-        if f == 'exists':
+        if self.v.orphans and self.chance(60 if orphan else 10):
+            # namespace that does not exist but has a CIM_Namespace instance
+            f = None
+            name = self.pick(self.v.orphans)[0].strip('/')
+            if self.chance(25):
+                name = self.other_spelling(name)
+        elif f == 'exists':
             name = self.pick(self.v.nss)
         elif f == 'exists-case':
             name = self.pick(self.v.nss).swapcase()
@@ -1791,25 +1931,34 @@ class Gen:
                 f = None
         elif self.chance(20):
             name = '/' + name + '/'
-        return {'op': 'add_namespace', 'name': name, 'fault': f}
+        return {'op': 'add_namespace', 'name': name, 'fault': f,
+                'nsrel': self.v.ns_relation(name)}
 
-    def g_remove_namespace(self):
+    def g_remove_namespace(self, registered=False):
         v = self.v
         empty = [ns for ns in v.nss
                  if not v.classes[ns] and not v.paths[ns] and not v.quals[ns]
                  and ns != v.interop]
         full = [ns for ns in v.nss if ns not in empty and ns != v.interop]
         f = self.pick([None, 'notfound', 'nonempty', 'nonempty', 'interop'])
+        if registered:
+            # an empty namespace that has a CIM_Namespace instance (which
+            # remove_namespace() leaves behind)
+            f = self.pick([None, None, None, 'notfound'])
+            empty = [ns for ns in empty if ns not in v.unregistered] or empty
         if f == 'nonempty' and full:
             name = self.pick(full)
         elif f == 'interop' and v.interop:
             name = v.interop
         elif f is None and empty:
             name = self.pick(empty)
+        elif v.orphans and self.chance(50):
+            # a namespace that only exists as CIM_Namespace instance
+            name, f = self.pick(v.orphans)[0].strip('/'), 'notfound'
         else:
             name, f = BADNS, 'notfound'
         return {'op': 'remove_namespace', 'name': self.ns_spelling(name),
-                'fault': f}
+                'fault': f, 'nsrel': v.ns_relation(name)}
 
     # ---- batches ----
 
@@ -2189,7 +2338,8 @@ class Machine:
         ['DeleteQualifier'] + ['CreateInstance'] * 8 + \
         ['ModifyInstance'] * 3 + ['DeleteInstance'] * 4 + \
         ['add_namespace'] * 2 + ['remove_namespace'] * 2 + \
-        ['add_cimobjects'] * 3 + ['compile'] * 2 + ['compile_schema']
+        ['add_cimobjects'] * 3 + ['compile'] * 2 + ['compile_schema'] + \
+        ['nsprov'] * 4
 
     def __init__(self, ctx):
         self.ctx = ctx
@@ -2217,6 +2367,13 @@ class Machine:
         except pywbem.Error as exc:
             raise HarnessError('start state rejected: %r' % (exc,)) from exc
         self.snap = dump(self.conn)
+        if self.ctx is not None and init.get('nsprov'):
+            v = View(self.conn)
+            self.ctx.event('start-state:namespace-provider')
+            self.ctx.event('start-state:CIM_Namespace-instances-without-'
+                           'namespace=%d' % len(v.orphans))
+            self.ctx.event('start-state:namespaces-without-CIM_Namespace-'
+                           'instance=%d' % len(v.unregistered))
         self.init = init
         self.trace = []
         self.init_fp = repr(init)
@@ -2458,6 +2615,11 @@ class Machine:
                 api = 'add_cimobjects(single-object)'
             sig = '%s:%s' % (api, summary(d))
             traits = self._traits(step)
+            if op == 'CreateInstance' and \
+                    'via-CIMNamespaceProvider' in traits:
+                # which side refused: a check of the namespace provider
+                # itself or the default provider it delegates to
+                traits.append('raised-by-' + _where(exc).split(':')[0])
             if op == 'DeleteClass':
                 traits.insert(0, 'interrupted-by-' + _where(exc))
                 nsl = step['ns'].strip('/').lower()
@@ -2551,6 +2713,12 @@ class Machine:
             if op in ('CreateInstance', 'ModifyInstance', 'DeleteInstance'):
                 for t in self._traits(step):
                     classes.append('rejected-trait:' + t)
+        if step.get('nsrel'):
+            # calls on the pairing namespace <-> CIM_Namespace instance:
+            # what existed under that name before the call
+            classes.append('nsprov:%s:name-has:%s:%s' % (
+                name, step['nsrel'], 'succeeded' if exc is None else
+                'raised'))
             d = diff(before, after)
             if d:
                 self._violation(step, d, before, after, exc)
@@ -2567,7 +2735,7 @@ class SingleMachine(Machine):
         ['DeleteQualifier'] + ['CreateInstance'] * 8 + \
         ['ModifyInstance'] * 3 + ['DeleteInstance'] * 4 + \
         ['add_namespace'] * 2 + ['remove_namespace'] * 2 + \
-        ['add_one_object'] * 3 + ['add_lone_link'] * 3
+        ['add_one_object'] * 3 + ['add_lone_link'] * 3 + ['nsprov'] * 4
 
 
 class MofMachine(Machine):
